@@ -84,6 +84,17 @@ class FracF2:
             self.a = FracVec(init, val)
             self.b = FracVec(init, val)
 
+    def __add__(self, o):
+        r = FracF2(self); r.a = self.a + o.a; r.b = self.b + o.b; return r
+
+    def __sub__(self, o):
+        r = FracF2(self); r.a = self.a - o.a; r.b = self.b - o.b; return r
+
+    def __rmul__(self, c):
+        r = FracF2(self); r.a = c * self.a; r.b = c * self.b; return r
+
+    __array_ufunc__ = None
+
     impl = property(lambda s: s.a, lambda s, v: setattr(s, 'a', v))
     expl = property(lambda s: s.b, lambda s, v: setattr(s, 'b', v))
     comp1 = property(lambda s: s.a, lambda s, v: setattr(s, 'a', v))
